@@ -60,29 +60,28 @@ fn c15a_momt_framing_witness() {
     assert!(size_at(&out, 0) + 8 == out.pos, "[momt-size] MOMT: declared chunk size != bytes written (version below MoP)");
     std::mem::forget((r, m));
 }
-/// MOMT record as the crate's binrw reader (`parse_wmo`) sees it
+/// MOMT record layout against the format's SMOMaterial (the layout chunks::MomtEntry declares): field offsets, zero tail.
+/// (`MomtEntry::read` itself - binrw, 64 bytes with a `Vec<u8>` tail - gave no verdict after 17 CPU-minutes.)
 #[kani::proof]
 #[kani::stub(std::fmt::format, vio::fmt_stub)]
 #[kani::unwind(30)]
-fn c15a_momt_vs_entry() {
+fn c15a_momt_record_layout() {
     let m = [any_material()];
     let mut out = Sink::<80>::new();
     let r = WmoWriter::new().write_materials(&mut out, &m, WmoVersion::Mop);
     assert!(r.is_ok());
-    let mut src = Src::<80>::new(out.buf, out.pos);
-    src.pos = 8;
-    let e = MomtEntry::read(&mut src);
-    assert!(e.is_ok(), "written MOMT record rejected by MomtEntry::read");
-    let e = e.unwrap();
-    kani::cover!(e.shader == 3);
-    assert!(src.pos == out.pos, "MomtEntry::read does not consume exactly the record written");
-    assert!(e.flags == m[0].flags.bits() && e.shader == m[0].shader && e.blend_mode == m[0].blend_mode, "MOMT flags/shader/blend moved");
-    assert!(e.texture_1 == m[0].texture1 && e.texture_2 == m[0].texture2 && e.ground_type == m[0].ground_type, "MOMT texture offsets / ground type moved");
-    let c = &m[0].emissive_color;
-    assert!(e.emissive_color[0] == c.r && e.emissive_color[1] == c.g && e.emissive_color[2] == c.b && e.emissive_color[3] == c.a);
-    let c = &m[0].diffuse_color;
-    assert!(e.diff_color[0] == c.r && e.diff_color[1] == c.g && e.diff_color[2] == c.b && e.diff_color[3] == c.a, "MOMT diffuse colour moved");
-    std::mem::forget((r, m, e));
+    kani::cover!(out.pos == 72);
+    let (e, k) = (8, &m[0]);
+    assert!(u32_at(&out, e) == k.flags.bits() && u32_at(&out, e + 4) == k.shader && u32_at(&out, e + 8) == k.blend_mode && u32_at(&out, e + 0x0C) == k.texture1,
+        "MOMT flags/shader/blend/texture_1 are not at 0x00/0x04/0x08/0x0C");
+    assert!(out.buf[e + 0x10] == k.emissive_color.r && out.buf[e + 0x13] == k.emissive_color.a && out.buf[e + 0x14] == k.sidn_color.r && out.buf[e + 0x17] == k.sidn_color.a,
+        "MOMT colour fields are not at 0x10/0x14");
+    assert!(u32_at(&out, e + 0x18) == k.texture2 && out.buf[e + 0x1C] == k.diffuse_color.r && out.buf[e + 0x1F] == k.diffuse_color.a && u32_at(&out, e + 0x20) == k.ground_type,
+        "MOMT texture_2/diffuse colour/ground type are not at 0x18/0x1C/0x20");
+    let i: usize = kani::any();
+    kani::assume(i >= 0x24 && i < 64);
+    assert!(out.buf[e + i] == 0, "MOMT tail (texture_3, color_2, flags_2, runtime data) is not zero");
+    std::mem::forget((r, m));
 }
 
 // ---- MOGI
